@@ -426,7 +426,7 @@ func NewOpLib() *OpLib {
 	// ---- leveraged LP
 	l.Add("llp_open_t1_x3", "llp_open", 0, func(w *World, p *BlockPlan) { p.Txs = one("t1", llpOpen(w.A("t1"), "3", 1e9, "0")) })
 	l.Add("llp_open_t1_x2_again", "llp_open", 0, func(w *World, p *BlockPlan) { p.Txs = one("t1", llpOpen(w.A("t1"), "2", 5e8, "0")) })
-	l.Add("llp_open_t2_x5", "llp_open", 0, func(w *World, p *BlockPlan) { p.Txs = one("t2", llpOpen(w.A("t2"), "5", 2e11, "0")) })
+	l.Add("llp_open_t2_x5", "llp_open", 0, func(w *World, p *BlockPlan) { p.Txs = one("t2", llpOpen(w.A("t2"), "5", 1e11, "0")) })
 	l.Add("llp_open_t3_x9", "llp_open", 0, func(w *World, p *BlockPlan) { p.Txs = one("t3", llpOpen(w.A("t3"), "9", 1e9, "0")) })
 	l.Add("llp_open_t3_dust", "llp_open", 0, func(w *World, p *BlockPlan) { p.Txs = one("t3", llpOpen(w.A("t3"), "2", 10, "0")) })
 	llpClose := func(name, owner string, num, den, minus int64) {
@@ -604,6 +604,7 @@ func NewOpLib() *OpLib {
 		p.Txs = one("lp1", &ctypes.MsgCommitClaimedRewards{Creator: w.A("lp1").Addr.String(), Denom: "uedenb", Amount: amt})
 	})
 	addC20Ops(l)
+	addC10Ops(l)
 	return l
 }
 
